@@ -20,6 +20,6 @@ def run(tier, seed):
                        "and the postcondition that only content of text tokens outside autolinks changes (types, levels, nesting, list length untouched). smartquotes.process_inlines: dominance GUARDs - every content store and every stack push lies past "
                        "the 'text token outside an autolink' test, no other token field or the list is written. ORDER: text_join follows the typographic rules in the core registry, so escapes/entities are still text_special (not text) when they run. "
                        "Bounded: shape identity and locality of the substitutions on the real parse.")
-    rep.trusted_base = STD_TRUST
-    rep.assumptions = []
+    rep.trusted_base += STD_TRUST
+    rep.assumptions += []
     return rep
